@@ -204,7 +204,8 @@ def run(project, chk):
                         "equality of the returned value with the plain call's is decided as 'the guarded region cannot influence it', not by comparing values"]
 
     # reviewed import list: a new import of an unreviewed module could hide I/O the table does not know
-    reviewed = {"typing", "math", "re", "html", "os", "rich", "click", "tinycss2", "pathlib", "traceback", "cm_colors", "functools", "itertools", "collections", "dataclasses", "enum", "colorsys", "decimal", "fractions", "numbers", "string", "textwrap", "json", "operator", "copy", "abc", "sys", "warnings", "logging", "io", "shutil", "tempfile", "subprocess", "time", "random", "datetime"}
+    reviewed = {"typing", "math", "re", "html", "os", "rich", "click", "tinycss2", "pathlib", "traceback", "cm_colors", "functools", "itertools", "collections", "dataclasses", "enum", "colorsys", "decimal", "fractions", "numbers", "string", "textwrap", "json", "operator", "copy", "abc", "sys", "warnings", "logging", "io", "shutil", "tempfile", "subprocess", "time", "random", "datetime",
+                "types", "bisect", "heapq", "statistics", "struct", "contextlib", "unicodedata", "keyword", "__future__", "cmath", "difflib", "hashlib", "base64", "binascii", "array", "weakref", "typing_extensions"}
     for m in project.modules.values():
         chk.saw_module(m)
         for n in ast.walk(m.tree):
